@@ -79,7 +79,13 @@ class Table:
         self.inline_depth = inline_depth
         self._rows_memo: Dict[str, List[Row]] = {}
         self._body = body     # analyse this statement list of fi (e.g. an exception handler's body) instead of the whole body
-        self.rows: List[Row] = self.rows_of(fi, dict(env0 or {}))
+        seed: Dict[str, ast.expr] = {}
+        a = fi.node.args
+        for prm in a.posonlyargs + a.args + a.kwonlyargs:
+            # parameters start as themselves; later re-assignments are tracked path-sensitively
+            seed[prm.arg] = ast.Name(id="@" + prm.arg, ctx=ast.Load())
+        seed.update(env0 or {})
+        self.rows: List[Row] = self.rows_of(fi, seed)
         self.vars = Vars()
         self._collect_vars()
 
